@@ -670,6 +670,21 @@ struct Visitor : RecursiveASTVisitor<Visitor> {
     return true;
   }
 
+  // lambdas: their call operator is dumped as "<enclosing function>::lambda@<line>" when the enclosing function is dumped
+  bool VisitLambdaExpr(LambdaExpr* L) {
+    if (fnStack.empty() || OptFuncs.empty()) return true;
+    const FunctionDecl* outer = fnStack.back();
+    std::string oq = Dumper::qname(outer);
+    if (!matches(OptFuncs, oq)) return true;
+    const CXXMethodDecl* op = L->getCallOperator();
+    if (!op || !op->doesThisDeclarationHaveABody() || op->isDependentContext()) return true;
+    json::Object fo = D.dumpFunction(op);
+    fo["name"] = oq + "::lambda@" + std::to_string(D.lineOf(L->getBeginLoc()));
+    fo["lambda_of"] = oq;
+    functions.push_back(std::move(fo));
+    return true;
+  }
+
   bool VisitVarDecl(VarDecl* V) {
     if (isa<ParmVarDecl>(V)) return true;
     if (!V->hasGlobalStorage()) return true;
